@@ -38,26 +38,34 @@ def g1(run: Run, cy: CyProgram):
         f = cy.func(modname, kname)
         if f is None:
             raise AnalysisError(f"pairwise kernel {kname} vanished")
-        stores = []
-        for st, chain in _loops(f.body):
-            if st.k == "assign" and any(t.k == "index" and pp(t.a[0]) == out
-                                        for t in st.a[0]):
-                stores.append((st, chain))
-        if not stores:
+        from .loopir import symmetric_store_report
+        # the output is the 2-D array the pair loops store to (its name is the
+        # kernel author's choice)
+        cands = sorted({r[0] for r in symmetric_store_report(f.body)})
+        if out not in cands and len(cands) == 1:
+            out = cands[0]
+        chains = {id(st): chain for st, chain in _loops(f.body)}
+        rep = [r for r in symmetric_store_report(f.body, {out})]
+        if not rep:
             raise AnalysisError(f"{f.where}: no store to `{out}` in {kname}")
-        for st, chain in stores:
-            tg = [t for t in st.a[0] if t.k == "index" and pp(t.a[0]) == out]
-            idx = [tuple(pp(i) for i in t.a[1]) for t in tg]
-            sym = len(idx) == 2 and idx[0] == tuple(reversed(idx[1])) and \
-                len(st.a[0]) == 2
-            run.oblige("G1", f"{kname}:symmetric-store", sym, sample={
-                "where": f"{f.module.relpath}:{st.line}", "targets": idx})
-            if not sym:
+        stores = []
+        seen = set()
+        for (arr, idx0, v, st, mirrored) in rep:
+            run.oblige("G1", f"{kname}:symmetric-store", mirrored, sample={
+                "where": f"{f.module.relpath}:{st.line}", "target": idx0})
+            if not mirrored:
                 run.add("G1", f"{kname}/asymmetric-store", f"{f.module.relpath}:{st.line}",
-                        f"{kname} stores `{pp(st)[:80]}`: the distance of a pair must be "
-                        f"written to [i,j] and [j,i] in one chained store, otherwise the "
-                        f"matrix is not exactly symmetric")
+                        f"{kname} stores `{pp(st)[:80]}` to [{idx0[0]},{idx0[1]}] but the "
+                        f"same value is not written to [{idx0[1]},{idx0[0]}] next to it: "
+                        f"the distance matrix is not exactly symmetric")
                 continue
+            key = tuple(sorted(idx0))
+            if key in seen:
+                continue
+            seen.add(key)
+            stores.append((st, chains.get(id(st), ()), idx0))
+        for st, chain, idx0 in stores:
+            idx = [idx0]
             # loop domain: the two index variables enumerate the full triangle
             a, b = idx[0]
             loops = {pp(l.a[0]): l for l in chain}
